@@ -15,6 +15,17 @@ observes (counting reader, goroutine dump, race detector).
 namespace OsmVerif.Props.C07
 open OsmVerif.Gen.Pbf OsmVerif.Model.ScanState OsmVerif.Model.PbfScan
 
+/-- position of the first occurrence of a statement -/
+def posOf (l : List String) (s : String) : Option Nat :=
+  let i := (l.takeWhile (· ≠ s)).length
+  if i < l.length then some i else none
+
+def infixOf (sub : List Char) : List Char → Bool
+  | [] => sub.isEmpty
+  | c :: cs => sub.isPrefixOf (c :: cs) || infixOf sub cs
+
+def containsSub (sub s : String) : Bool := infixOf sub.toList s.toList
+
 /-- the statement right after `line` -/
 def segmentAfter (body : List String) (line : String) : Option String := ((body.dropWhile (· ≠ line)).drop 1).head?
 
@@ -134,8 +145,9 @@ theorem consumer_state_private :
 
 open OsmVerif.Model.PipelineStop in
 /-- **after the context is cancelled every goroutine of the pipeline ends, under every schedule**: in the
-    transition system of `Model.PipelineStop` (reader at its loop head or in its select, decoders draining
-    their queues, serializer in either select; any queue contents) every step lowers a measure, so no run is
+    transition system of `Model.PipelineStop` (reader before its loop in the bare send of a resumed scan's first
+    block, at its loop head or in its select, decoders draining their queues, serializer in either select; any
+    queue contents) every step lowers a measure, so no run is
     longer than the measure of its first state; while a goroutine is alive some step is enabled; hence a run
     that cannot be extended has ended reader, all decoders and serializer — `wg.Wait()` in Close returns.
     Fairness of `select` is needed only for receives from already closed output queues and is explicit in
@@ -146,15 +158,19 @@ theorem goroutines_end (n : Nat) (hn : 0 < n) (s s' : St) (as : List Step) (hc :
 
 def countOf (l : List String) (x : String) : Nat := (l.filter (· = x)).length
 
-/-- the transition system's premises in the source: every blocking channel operation of `Start`'s goroutines
-    is inside a `select` with a `<-dec.ctx.Done()` branch (four selects, four Done branches, no other branch
-    kinds); the reader closes every input queue when it returns, every decoder ranges over its input queue
+/-- the transition system's premises in the source: every channel operation of `Start`'s goroutines is a `case`
+    of a `select` with a `<-dec.ctx.Done()` branch (four selects, four Done branches, no other branch kinds) —
+    except one: the send of a resumed scan's first block to decoder 0, which stands before the reader's loop
+    (state `first` of the model) and is received by a `for p := range input` that only ends when the queue is closed; the reader closes every input queue when it returns, every decoder ranges over its input queue
     and closes its output queue when it returns, the serializer closes the consumer's queue and cancels -/
 theorem blocking_ops_have_done_branch :
     countOf startBody "select {" = 4 ∧ countOf startBody "case <-dec.ctx.Done():" = 4 ∧
     countOf startBody "case output <- out:" = 1 ∧ countOf startBody "case input <- pair:" = 1 ∧
     countOf startBody "case p = <-output:" = 1 ∧ countOf startBody "case dec.serializer <- p:" = 1 ∧
     (startBody.filter fun l => hasPrefix "case " l).length = 8 ∧
+    (startBody.filter fun l => containsSub "<-" l && !hasPrefix "case " l) = ["dec.inputs[0] <- iPair{Offset: 0, Blob: blob, Err: err}"] ∧
+    (match posOf startBody "dec.inputs[0] <- iPair{Offset: 0, Blob: blob, Err: err}", posOf startBody "for dec.ctx.Err() == nil && err == nil {" with
+     | some a, some b => decide (a < b) | _, _ => false) = true ∧
     startBody.contains "defer close(output)" = true ∧ startBody.contains "for p := range input {" = true ∧
     segmentAfter startBody "for _, input := range dec.inputs {" = some "close(input)" ∧
     segmentAfter startBody "close(dec.serializer)" = some "dec.cancel()" := by
@@ -166,5 +182,36 @@ example : runCalls { remaining := 2, failsAtEnd := false } [.scan, .err, .close,
 example : runCalls { remaining := 1, failsAtEnd := false } [.scan, .scan, .close, .err] =
     [.bool true, .bool false, .unit, .report .nil_] := by decide
 example : reads .or_ 10 3 = 10 ∧ reads .and_ 10 3 = 3 := by decide
+
+open OsmVerif.Model.PipelineStop in
+/-- a resumed scan cancelled at once, two decoders: reader still in its bare first send, one result waiting -/
+def exStop : St :=
+  { reader := .first, inputsClosed := false, inputs := (fun _ => 0), worker := (fun _ => .idle),
+    outputs := (fun w => if w = 1 then 1 else 0), ser := .waiting, spurious := 1 }
+open OsmVerif.Model.PipelineStop in
+def exSteps : List Step := [.readerFirstSent, .serRecv 1, .readerExit, .workerTake 0, .serSent, .workerSent 0 false,
+  .workerExit 0, .workerExit 1, .serDone]
+open OsmVerif.Model.PipelineStop in
+def runSteps (n : Nat) : St → List Step → Option St
+  | s, [] => some s
+  | s, a :: as => match step n s a with
+    | some s' => runSteps n s' as
+    | none => none
+open OsmVerif.Model.PipelineStop in
+theorem runSteps_run (n : Nat) : ∀ (as : List Step) (s s' : St), runSteps n s as = some s' → Run n s as s' := by
+  intro as
+  induction as with
+  | nil => intro s s' h; simp only [runSteps, Option.some.injEq] at h; subst h; exact Run.nil s
+  | cons a as ih =>
+    intro s s' h
+    simp only [runSteps] at h
+    cases hs : step n s a with
+    | none => simp [hs] at h
+    | some s1 => simp only [hs] at h; exact Run.cons s s1 s' a as hs (ih s1 s' h)
+open OsmVerif.Model.PipelineStop in
+example : Consistent exStop := ⟨by decide, by intro _; rfl, by intro _ w; simp [exStop]⟩
+open OsmVerif.Model.PipelineStop in
+example : (runSteps 2 exStop exSteps).map (fun s => (s.reader, s.worker 0, s.worker 1, s.ser)) =
+    some (.done, .done, .done, .done) := by decide
 
 end OsmVerif.Props.C07
